@@ -17,7 +17,8 @@ if os.path.exists(na_file):
 for p in props:
     pid = p['id']
     path = os.path.join(VERIF, 'vmon', 'checks', pid.lower() + '.py')
-    if pid in NA_REASONS or not os.path.exists(path):
+    claimed = open(os.path.join(VERIF, 'tools', 'claimed.txt')).read().split()
+    if pid in NA_REASONS or not os.path.exists(path) or pid not in claimed:
         na.append({'property_id': pid, 'reason': NA_REASONS.get(pid, 'check not built yet in this round; not claimed')})
         continue
     mod = importlib.import_module('vmon.checks.' + pid.lower())
